@@ -19,9 +19,11 @@ async def main():
     t = asyncio.ensure_future(collect())
     await asyncio.sleep(0)
     f.set_result(WorkResult("shared"))
+    hang = False
     try:
-        await asyncio.wait_for(t, 0.5); print("terminated")
+        await asyncio.wait_for(t, 0.5); print("terminated: OK")
     except asyncio.TimeoutError:
-        print("HANG: no termination event")
+        print("VIOLATION (HANG): no termination event"); hang = True
     for e in out: print(e)
-asyncio.run(main())
+    return hang
+raise SystemExit(1 if asyncio.run(main()) else 0)
